@@ -5,6 +5,7 @@ package cluster
 import (
 	"sync/atomic"
 
+	"github.com/emitter-io/emitter/internal/event"
 	"github.com/emitter-io/emitter/internal/message"
 	"github.com/weaveworks/mesh"
 )
@@ -27,3 +28,6 @@ func (p *Peer) VerifSetActivity(t int64) { atomic.StoreInt64(&p.activity, t) }
 
 // VerifMaxByteFrameSize exposes the frame bound.
 const VerifMaxByteFrameSize = maxByteFrameSize
+
+// VerifState exposes the replicated state of the swarm.
+func (s *Swarm) VerifState() *event.State { return s.state }
